@@ -446,9 +446,14 @@ compute_image_info (pixman_image_t *image)
 	break;
 
     case BITS:
+	/* A 1x1 repeating image is a solid colour, unless it is sampled
+	 * through a convolution kernel: the weights need not sum to 1.
+	 */
 	if (image->bits.width == 1	&&
 	    image->bits.height == 1	&&
-	    image->common.repeat != PIXMAN_REPEAT_NONE)
+	    image->common.repeat != PIXMAN_REPEAT_NONE &&
+	    image->common.filter != PIXMAN_FILTER_CONVOLUTION &&
+	    image->common.filter != PIXMAN_FILTER_SEPARABLE_CONVOLUTION)
 	{
 	    code = PIXMAN_solid;
 	}
